@@ -380,8 +380,14 @@ func init() {
 			for range exx {
 			}
 		}()
-		n := 0
+		n, late := 0, 0
 		for v := range out {
+			if ctx.Err() != nil {
+				// every value after the deadline is a coin the emitter lost (a ready send against a done context)
+				if late++; late > postCancelBudget {
+					return fmt.Sprintf("deadline after %v: Emit delivered %d more values to a consumer that keeps up after its context was done, it does not stop", life, late)
+				}
+			}
 			if v != n {
 				return fmt.Sprintf("value %d of Emit is %d", n, v)
 			}
@@ -793,7 +799,11 @@ func init() {
 				}
 			}
 			cancel()
+			late := 0
 			for range out {
+				if late++; late > postCancelBudget {
+					return fmt.Sprintf("Emit with frequency %v delivered %d more values after cancel to a consumer that keeps up, it does not stop", d, late)
+				}
 			}
 		case "Take":
 			got := api.ToSeq(api.Take(ctx, api.Seq(xs...), c.Par))
